@@ -9,7 +9,10 @@ import (
 	"strings"
 )
 
+var dbgEventDeclChanged, dbgCalls int
+
 type Deployed struct {
+	LastCallVer int // version whose event declaration the last ct.call emitted (0: never called)
 	Ver     int
 	Variant string // "ok" | "enum"
 	X       int64  // the contract's stored field
@@ -266,6 +269,11 @@ func (m *Model) applyContracts(o Op, pr *Pred) (string, bool) {
 			return FChecker, true
 		}
 		pr.obs("ver", fmt.Sprintf("Int(%d)", cur.Ver))
+		dbgCalls++
+		if cur.LastCallVer != 0 && cur.LastCallVer%2 != cur.Ver%2 {
+			dbgEventDeclChanged++
+		}
+		cur.LastCallVer = cur.Ver
 		cur.X++
 		pr.obs("x", fmt.Sprintf("Int(%d)", cur.X))
 		if cur.Variant == "ok" || cur.Variant == "enum" || cur.Variant == "initfail" {
@@ -296,6 +304,26 @@ var ctNames = []string{"CA", "CB", "CC"}
 func (g *Gen) contractOp() Op {
 	a := g.acct()
 	name := ctNames[g.R.Intn(len(ctNames))]
+	// bias towards contracts that exist: histories of one contract (add, call, update, call, remove, add again) matter more
+	// than many first deployments
+	if g.R.Chance(0.6) {
+		type an struct {
+			a int
+			n string
+		}
+		var deployed []an
+		for acct := 1; acct <= g.Cfg.NAccts; acct++ {
+			for _, nm := range ctNames {
+				if g.M.Ctr.get(acct, nm) != nil {
+					deployed = append(deployed, an{acct, nm})
+				}
+			}
+		}
+		if len(deployed) > 0 {
+			d := deployed[g.R.Intn(len(deployed))]
+			a, name = d.a, d.n
+		}
+	}
 	cur := g.M.Ctr.get(a, name)
 	key := fmt.Sprintf("%d/%s", a, name)
 	g.nonce++
